@@ -29,9 +29,9 @@ pub use internal::{
 };
 use itertools::Itertools;
 pub use requirement::Requirement;
-pub use solver::{Problem, Solver, SolverCache, UnsolvableOrCancelled};
 #[cfg(feature = "verif-hooks")]
 pub use solver::verif_hooks;
+pub use solver::{Problem, Solver, SolverCache, UnsolvableOrCancelled};
 
 /// An object that is used by the solver to query certain properties of
 /// different internalized objects.
